@@ -387,7 +387,7 @@ func (c cfgSub) reify(opts *options) (interface{}, error) {
 			opts.activeFields = newFieldSet(parentFields)
 			var err error
 			if m[k], err = v.reify(opts); err != nil {
-				return nil, err
+				return nil, reifyErrAt(v, err)
 			}
 		}
 		return m, nil
@@ -397,7 +397,7 @@ func (c cfgSub) reify(opts *options) (interface{}, error) {
 			opts.activeFields = newFieldSet(parentFields)
 			var err error
 			if m[i], err = v.reify(opts); err != nil {
-				return nil, err
+				return nil, reifyErrAt(v, err)
 			}
 		}
 		return m, nil
@@ -408,7 +408,7 @@ func (c cfgSub) reify(opts *options) (interface{}, error) {
 			opts.activeFields = newFieldSet(parentFields)
 			var err error
 			if m[k], err = v.reify(opts); err != nil {
-				return nil, err
+				return nil, reifyErrAt(v, err)
 			}
 		}
 		for i, v := range arr {
@@ -416,11 +416,21 @@ func (c cfgSub) reify(opts *options) (interface{}, error) {
 			var err error
 			m[fmt.Sprintf("%d", i)], err = v.reify(opts)
 			if err != nil {
-				return nil, err
+				return nil, reifyErrAt(v, err)
 			}
 		}
 		return m, nil
 	}
+}
+
+// reifyErrAt makes an error met when reifying the setting v name the path of
+// v, unless it names the path of a setting below v already.
+func reifyErrAt(v value, err error) error {
+	if e, ok := err.(Error); ok && e.Path() != "" {
+		return err
+	}
+	ctx := v.Context()
+	return raisePathErr(err, v.meta(), "", ctx.path("."))
 }
 
 func (d *cfgDynamic) typ(opts *options) (ti typeInfo, err error) {
